@@ -502,6 +502,14 @@ Section EigenMatrix.
       destruct (teqb v k) eqn:E; [|apply IH]. apply teqb_spec in E. subst. reflexivity.
     Qed.
 
+    Lemma xat_map_snd (f : T -> R -> R) (x : xmap) k : In k (keys x) ->
+      xat (map (fun kv => (fst kv, f (fst kv) (snd kv))) x) k = f k (xat x k).
+    Proof.
+      intros Hin. unfold xat. rewrite lookup_map_snd.
+      destruct (lookup teqb k x) eqn:E; [reflexivity|].
+      apply (lookup_None_keys teqb teqb_spec) in E. contradiction.
+    Qed.
+
     (* the crisp statement: the accumulation loop IS (I + A^T), in either form *)
     Theorem spread_is_matvec : spread teqb F g weighted xlast = Ok (matvec xlast).
     Proof.
